@@ -271,6 +271,36 @@ func markRunInner(c Case, w *Worker, collect bool) (res Result) {
 	// a different private key must neither rebuild the index nor restore anything
 	rows, _ := DumpRows(rig.DB)
 	rig.LocksSettled()
+	if c.Seed%2 == 0 {
+		// in every second case the key holder first rebuilds the index from the tape and reads files IN THIS PROCESS (a server that
+		// serves several tenants, a tool that tries several identities): whatever a process has seen with the right key must not
+		// help the next caller, who has another one
+		od := w.NewDir("c09o")
+		if err := CloneDir(dir, od, false); err == nil {
+			if orig, err := NewRig(od, cfg); err == nil {
+				if err := runIndex(orig, true); err != nil {
+					viol("owner-rebuild", "the key holder's own rebuild of the tape fails: %v", err)
+					orig.Close()
+					return
+				}
+				n := 0
+				for _, rw := range rows {
+					if rw.Deleted == 1 || rw.Typeflag != '0' || n >= 4 {
+						continue
+					}
+					n++
+					if _, err := fetchBytes(orig, rw.Record, rw.Block); err != nil {
+						viol("owner-fetch", "the key holder's own fetch at %d/%d fails: %v", rw.Record, rw.Block, err)
+						orig.Close()
+						return
+					}
+				}
+				orig.Close()
+				ops = append(ops, "rebuild + fetches by the key holder in the same process first")
+				res.count("foreign_key_attempts_after_the_key_holder_used_the_process", 1)
+			}
+		}
+	}
 	fd := w.NewDir("c09f")
 	if err := CloneDir(dir, fd, false); err == nil {
 		fcfg := cfg
@@ -347,6 +377,6 @@ func markRunInner(c Case, w *Worker, collect bool) (res Result) {
 func init() {
 	register(&Engine{Name: "markers", Props: []string{"C09"}, Cases: markCases, Run: markRun})
 	propMeta["C09"] = PropMeta{Level: "exploration",
-		Rule:        "per case one generated history (files, directories, symlinks, chmod/chown/chtimes, renames, removes, batched archive/update/delete/move) under {age,pgp} x 8 compression formats x {none,minisign,pgp} (an eighth of the cases with a tape-mode writer: whole records, padded sessions) whose names are 20-character random markers, whose contents embed a 40-character marker and whose owners/timestamps are marker numbers; after every call the raw drive file is searched for every marker (raw, hex, base64 at 3 alignments), for clear-text forms of the owner/timestamp values and for STFS.* keys and embedded-header field names, and every outer tar header found by an independent scan must be the fixed wrapper (all fields empty/zero, single PAX key STFS.EmbeddedHeader); at the end recovery.Index and recovery.Fetch with an unrelated key pair must fail; non-trivial = at least 5 records on the tape; distinct = distinct (configuration, call list); the first 160 bytes of every pair of encrypted content records must differ",
+		Rule:        "per case one generated history (files, directories, symlinks, chmod/chown/chtimes, renames, removes, batched archive/update/delete/move) under {age,pgp} x 8 compression formats x {none,minisign,pgp} (an eighth of the cases with a tape-mode writer: whole records, padded sessions) whose names are 20-character random markers, whose contents embed a 40-character marker and whose owners/timestamps are marker numbers; after every call the raw drive file is searched for every marker (raw, hex, base64 at 3 alignments), for clear-text forms of the owner/timestamp values and for STFS.* keys and embedded-header field names, and every outer tar header found by an independent scan must be the fixed wrapper (all fields empty/zero, single PAX key STFS.EmbeddedHeader); at the end recovery.Index and recovery.Fetch with an unrelated key pair must fail; non-trivial = at least 5 records on the tape; distinct = distinct (configuration, call list); the first 160 bytes of every pair of encrypted content records must differ; in every second case the key holder first rebuilds the index and fetches files in the same process, and only then the other private key is tried (what a process has seen with the right key must not help a caller with another one)",
 		Assumptions: []string{"markers are long enough that a chance occurrence in ciphertext has probability < 2^-60 per tape", "record lengths are allowed to be visible; cryptographic strength is not judged"}}
 }
